@@ -6,6 +6,7 @@ _MODULES = [
     "c02_pipeline",
     "c09_body_stream",
     "c10_limits",
+    "c18_locals",
 ]
 
 REGISTRY: dict = {}
